@@ -158,3 +158,30 @@ Proof.
   - subst rc. rewrite umask_coef_outside by assumption. apply (proj2 (scale_u8_full c Hc)).
   - contradiction.
 Qed.
+
+(* ------------------------------------------------------------------ second pass: group opacity in exact binary32, all 65 536
+   (premultiplied channel, opacity byte) pairs *)
+Definition sweep_rows {T : Type} (F : Z -> T) (P : Z -> Z -> T -> bool) : bool :=
+  forallb (fun k => let fk := F k in forallb (fun c => P c k fk) bytes) bytes.
+Lemma sweep_rows_spec {T : Type} (F : Z -> T) (P : Z -> Z -> T -> bool) :
+  sweep_rows F P = true -> forall c k, is_byte c -> is_byte k -> P c k (F k) = true.
+Proof.
+  unfold sweep_rows. intros H c k Hc Hk. rewrite forallb_forall in H.
+  specialize (H k (proj2 (bytes_spec k) Hk)). cbv beta zeta in H.
+  rewrite forallb_forall in H. apply H, bytes_spec, Hc.
+Qed.
+Definition op_pair (k : Z) : f32 * f32 := (opacity_of_byte k, opacity_of_byte (k + 1)).
+Definition op_ok (c k : Z) (o : f32 * f32) : bool :=
+  let v := opacity_u8 c (fst o) in
+  (0 <=? v) && (v <=? c) && ((0 <? k) || (v =? 0)) && ((k <? 255) || (v =? c)) && ((k =? 255) || (v <=? opacity_u8 c (snd o))).
+Lemma opacity_sweep_true : sweep_rows op_pair op_ok = true.
+Proof. vm_compute. reflexivity. Qed.
+
+Lemma opacity_u8_facts : forall c k, is_byte c -> is_byte k ->
+  let v := opacity_u8 c (fst (op_pair k)) in
+  0 <= v <= c /\ (k = 0 -> v = 0) /\ (k = 255 -> v = c) /\ (k < 255 -> v <= opacity_u8 c (snd (op_pair k))).
+Proof.
+  intros c k Hc Hk v.
+  pose proof (sweep_rows_spec _ _ opacity_sweep_true c k Hc Hk) as H. unfold op_ok in H. fold v in H.
+  rewrite !andb_true_iff, !orb_true_iff, !Z.leb_le, !Z.ltb_lt, !Z.eqb_eq in H. unfold is_byte in Hk. lia.
+Qed.
